@@ -154,7 +154,10 @@ TranslateStep(e) ==
         h == HistLookup(amap, e.va)
         t == e.x.t
         r == TranslatePageSem(ent, amap, 0, Containing(e.va, 0).v)
-    IN IF /\ Proj(w) = h                                          \* hardware walk = history (C01)
+    IN IF /\ (IndexOf(e.va, 4) # rix => Proj(w) = h)              \* hardware walk = history (C01);
+                                                                 \* inside the recursive slot the
+                                                                 \* walk through the recursive
+                                                                 \* entry alone decides
           /\ IF w.k = "mapped"
              THEN /\ t.k = "mapped" /\ t.frame = w.frame /\ t.size = w.size /\ t.off = w.off
                   /\ ReportedFlags(t) = w.flags
